@@ -175,24 +175,43 @@ class DirkReference:
             C = P.M - tau * aii * P.L
             return np.linalg.solve(C, rhs + tau * aii * P.g)
         z = np.array(start, dtype=float)
+        eps = np.finfo(float).eps
+        normM, lip = _norm2(P.M), P.lipschitz()
+        prev = np.inf
         for it in range(200):
             r = P.M @ z - tau * aii * P.F(z) - rhs
-            if np.linalg.norm(r) <= 1e-13 * (1.0 + np.linalg.norm(rhs)):
+            nr = np.linalg.norm(r)
+            # stop at the rounding floor of the residual evaluation, or when the residual stagnates near it
+            scale = (normM * np.linalg.norm(z) + np.linalg.norm(rhs) + abs(tau * aii)
+                     * (lip * np.linalg.norm(z) + np.linalg.norm(P.g) + abs(P.kappa) * np.sqrt(P.n)))
+            if nr <= 32 * eps * scale or (nr <= 1e-10 * scale and nr >= 0.5 * prev):
                 break
+            prev = nr
             z = z - np.linalg.solve(P.M - tau * aii * P.J(z), r)
         else:
             raise ArithmeticError("reference Newton did not converge")
         return z
 
     def step(self, P, x, tau):
-        """Returns dict(x_new, x_est, ys, Fs, res0, bound_new, bound_est, bound_stage, tight_ok, cond)."""
+        """One exact step.  Returns a dict with x_new, x_est (if embedded), the stages ys / Fs, and two
+        a-priori error bounds for an implementation that solves every stage equation only up to a residual
+        rho_i (propagated through the later stages and the final combination):
+          * `newton`:   rho_i = max(atol, rtol*res0_i)  -- what pyiga's Newton stopping rule permits;
+          * `rounding`: rho_i = eps * (|C_i| |y_i| + |rhs_i| + ...)  -- floating-point evaluation of the residual.
+        `tight_ok` tells whether Newton provably performs at least one iteration in every implicit stage
+        (res0_i > 4*atol); for linear F one Newton step with the exact Jacobian lands on the stage solution
+        up to rounding, so the rounding bound applies."""
         s, A = self.s, self.A
         x = np.asarray(x, dtype=float)
+        eps = np.finfo(float).eps
         ys, Fs = [], []
-        deltas = []       # rigorous bounds on |pyiga stage - exact stage| given Newton's stopping rule
-        res0s = []        # initial Newton residuals (with exact predecessors)
-        conds = []
+        stabs, res0s, conds, rho_round, normC = [], [], [], [], []
         lip = P.lipschitz()
+        nl = abs(P.kappa) * _norm2(P.D)          # Lipschitz constant of the nonlinear part
+        # magnitude of the terms summed when F(y) is evaluated (rounding error of F is eps times this)
+        fmag = lambda y: lip * np.linalg.norm(y) + np.linalg.norm(P.g) + abs(P.kappa) * np.sqrt(P.n)
+        normM = _norm2(P.M)
+        MinvL = _norm2(np.linalg.solve(P.M, P.L))
         Minv_norm = 1.0 / np.linalg.svd(P.M, compute_uv=False)[-1]
         for i in range(s):
             aii = A[i, i]
@@ -201,53 +220,77 @@ class DirkReference:
                     raise ValueError("explicit stage after the first one is outside the DIRK family handled")
                 ys.append(x.copy())
                 Fs.append(P.F(x))
-                deltas.append(0.0)
+                stabs.append(None)
                 res0s.append(None)
+                rho_round.append(0.0)
+                normC.append(0.0)
                 continue
             rhs = P.M @ x + tau * sum(A[i, j] * Fs[j] for j in range(i))
             start = x if i == 0 else ys[-1]
             z = self._solve_stage(P, tau, aii, rhs, start)
-            res0 = float(np.linalg.norm(P.M @ start - tau * aii * P.F(start) - rhs))
-            res0s.append(res0)
-            # stability constant of the stage map: |z1 - z2| <= stab * |G(z1) - G(z2)|
-            if P.linear:
-                C = P.M - tau * aii * P.L
-                sv = np.linalg.svd(C, compute_uv=False)
-                stab = 1.0 / sv[-1]
-                conds.append(float(sv[0] / sv[-1]))
-            else:
-                # strong monotonicity: sym(M - tau aii J(z)) >= lam_min(sym(M - tau aii L)) - tau aii kappa |D|
-                Cs = P.M - tau * aii * P.L
-                mono = float(np.linalg.eigvalsh(0.5 * (Cs + Cs.T))[0]) - abs(tau * aii * P.kappa) * _norm2(P.D)
-                if mono <= 0:
-                    raise ValueError("stage map not strongly monotone (generator must guarantee this)")
-                stab = 1.0 / mono
-                conds.append(float((_norm2(P.M) + abs(tau * aii) * lip) * stab))
-            # error in the right-hand side inherited from earlier stages + Newton residual allowed by the
-            # stopping rule  |res| < max(atol, rtol * res0)   (res0 evaluated at pyiga's own start value,
-            # which differs from ours by at most deltas[-1]; covered by the factor 2 and the additive term)
-            inherited = abs(tau) * sum(abs(A[i, j]) * lip * deltas[j] for j in range(i))
-            start_err = (deltas[-1] if i > 0 else 0.0) * (_norm2(P.M) + abs(tau * aii) * lip)
-            target = max(self.NEWTON_ATOL, self.NEWTON_RTOL * (res0 + start_err + inherited))
-            deltas.append(stab * (target + inherited))
+            res0s.append(float(np.linalg.norm(P.M @ start - tau * aii * P.F(start) - rhs)))
+            nC = normM + abs(tau * aii) * lip
+            normC.append(nC)
+            # stability constant of the stage map G(z) = M z - tau aii F(z):  |z1 - z2| <= stab |G(z1) - G(z2)|
+            # G(z) = C z - tau aii kappa sin(D z + ph) - const,  C = M - tau aii L:
+            #   z1 - z2 = C^-1 (G(z1) - G(z2)) + C^-1 tau aii kappa (sin1 - sin2)
+            #   => |z1 - z2| <= |C^-1 (G(z1) - G(z2))| / (1 - q),  q = |C^-1| tau aii kappa |D| < 1
+            C = P.M - tau * aii * P.L
+            Cinv = np.linalg.inv(C)
+            sv = np.linalg.svd(C, compute_uv=False)
+            cinv = 1.0 / sv[-1]
+            q = cinv * abs(tau * aii) * nl
+            if q >= 0.9:
+                raise ValueError("stage map not contractive enough (generator must guarantee this)")
+            conds.append(float(sv[0] / sv[-1]))
+            stabs.append((cinv / (1 - q), (_norm2(Cinv @ P.L) + cinv * nl) / (1 - q)))
             ys.append(z)
             Fs.append(P.F(z))
-        x_new = x + tau * np.linalg.solve(P.M, sum(self.b[i] * Fs[i] for i in range(s)))
-        out = {"ys": ys, "Fs": Fs, "res0": res0s, "cond": max(conds) if conds else 1.0,
-               "stage_bounds": deltas}
-        out["x_new"] = x_new
-        sa = bool(np.allclose(self.b, A[s - 1]))
+            big = max(np.linalg.norm(z), np.linalg.norm(start), np.linalg.norm(x))
+            rho_round.append(eps * (nC * big + np.linalg.norm(rhs) + abs(tau * aii) * fmag(z)
+                                    + abs(tau) * sum(abs(A[i, j]) * fmag(ys[j]) for j in range(i))))
+        # stiffly accurate (b identical to the last row of A): x + tau M^-1 sum b_i F_i == y_s identically; y_s is
+        # the better conditioned expression (no cancellation in F for stiff problems)
+        sa = bool(np.array_equal(self.b, A[s - 1])) and A[s - 1, s - 1] != 0.0
         if sa:
-            out["bound_new"] = deltas[s - 1]
+            x_new = ys[s - 1].copy()
         else:
-            out["bound_new"] = abs(tau) * Minv_norm * lip * sum(abs(self.b[i]) * deltas[i] for i in range(s))
+            x_new = x + tau * np.linalg.solve(P.M, sum(self.b[i] * Fs[i] for i in range(s)))
+        out = {"ys": ys, "Fs": Fs, "res0": res0s, "cond": max(conds) if conds else 1.0, "x_new": x_new,
+               "stiffly_accurate": sa, "Minv_norm": Minv_norm}
         if self.bh is not None:
             out["x_est"] = x + tau * np.linalg.solve(P.M, sum(self.bh[i] * Fs[i] for i in range(s)))
-            out["bound_est"] = abs(tau) * Minv_norm * lip * sum(abs(self.bh[i]) * deltas[i] for i in range(s))
-        # does Newton provably perform >= 1 iteration in every implicit stage?  (then, for linear F, one exact
-        # Newton step lands on the stage solution up to rounding)
+
+        def propagate(kind):
+            deltas = []
+            for i in range(s):
+                if stabs[i] is None:
+                    deltas.append(0.0)
+                    continue
+                wsum = abs(tau) * sum(abs(A[i, j]) * deltas[j] for j in range(i))
+                if kind == "newton":
+                    # res0 is evaluated by the implementation at its own start value (off by <= deltas[-1])
+                    start_err = (deltas[-1] if i > 0 else 0.0) * normC[i]
+                    rho = max(self.NEWTON_ATOL, self.NEWTON_RTOL * (res0s[i] + start_err + lip * wsum))
+                else:
+                    rho = rho_round[i]
+                deltas.append(stabs[i][0] * rho + stabs[i][1] * wsum)
+            comb = lambda w: abs(tau) * (MinvL + Minv_norm * nl) * sum(abs(w[i]) * deltas[i] for i in range(s))
+            final_round = eps * (np.linalg.norm(x) + normM * Minv_norm * np.linalg.norm(x) + abs(tau) * Minv_norm
+                                 * sum(abs(self.b[i]) * fmag(ys[i]) for i in range(s))) if kind == "rounding" else 0.0
+            res = {"stages": deltas,
+                   "x_new": (deltas[s - 1] if sa else comb(self.b) + final_round)}
+            if self.bh is not None:
+                final_round_h = eps * (np.linalg.norm(x) + normM * Minv_norm * np.linalg.norm(x) + abs(tau) * Minv_norm
+                                       * sum(abs(self.bh[i]) * fmag(ys[i]) for i in range(s))) if kind == "rounding" else 0.0
+                res["x_est"] = comb(self.bh) + final_round_h
+            # the implementation may return F at the last stage as F(x_new): error <= lip * delta
+            res["F_new"] = lip * deltas[s - 1] + (eps * fmag(ys[s - 1]) if kind == "rounding" else 0.0)
+            return res
+
+        out["bound_newton"] = propagate("newton")
+        out["bound_rounding"] = propagate("rounding")
         out["tight_ok"] = all(r is None or r > 4 * self.NEWTON_ATOL for r in res0s)
-        out["Minv_norm"] = Minv_norm
         return out
 
 
@@ -262,21 +305,40 @@ class RowReference:
         self.s = len(self.b)
 
     def step(self, P, x, tau):
+        """One exact ROW step (linear algebra only, also for nonlinear F) and an a-priori rounding bound."""
         x = np.asarray(x, dtype=float)
         s = self.s
+        eps = np.finfo(float).eps
         Jx = P.J(x)
-        ks = []
-        conds = []
+        nJ = _norm2(Jx)
+        lip = P.lipschitz()
+        nl = abs(P.kappa) * _norm2(P.D)
+        fmag = lambda y: lip * np.linalg.norm(y) + np.linalg.norm(P.g) + abs(P.kappa) * np.sqrt(P.n)
+        ks, conds, dk = [], [], []
+        zero = np.zeros_like(x)
         for i in range(s):
-            yi = x + tau * sum((self.A[i, j] * ks[j] for j in range(i)), np.zeros_like(x))
-            rhs = P.F(yi) + tau * Jx @ sum((self.G[i, j] * ks[j] for j in range(i)), np.zeros_like(x))
+            yi = x + tau * sum((self.A[i, j] * ks[j] for j in range(i)), zero)
+            wi = sum((self.G[i, j] * ks[j] for j in range(i)), zero)
+            rhs = P.F(yi) + tau * Jx @ wi
             C = P.M - tau * self.G[i, i] * Jx
             sv = np.linalg.svd(C, compute_uv=False)
             conds.append(float(sv[0] / sv[-1]))
-            ks.append(np.linalg.solve(C, rhs))
+            k = np.linalg.solve(C, rhs)
+            ks.append(k)
+            Cinv = np.linalg.inv(C)
+            cl, cj = _norm2(Cinv @ P.L) + nl / sv[-1], _norm2(Cinv @ Jx)
+            nk = [np.linalg.norm(v) for v in ks]
+            round_i = eps * (fmag(yi) + abs(tau) * nJ * sum(abs(self.G[i, j]) * nk[j] for j in range(i))
+                             + sv[0] * nk[i]
+                             + lip * (np.linalg.norm(x) + abs(tau) * sum(abs(self.A[i, j]) * nk[j] for j in range(i))))
+            inherited = abs(tau) * sum((cl * abs(self.A[i, j]) + cj * abs(self.G[i, j])) * dk[j] for j in range(i))
+            dk.append(round_i / sv[-1] + inherited)
         out = {"ks": ks, "cond": max(conds)}
         out["x_new"] = x + tau * sum(self.b[i] * ks[i] for i in range(s))
+        nk = [np.linalg.norm(v) for v in ks]
+        comb = lambda w: eps * np.linalg.norm(x) + abs(tau) * sum(abs(w[i]) * (dk[i] + eps * nk[i]) for i in range(s))
+        out["bound_rounding"] = {"x_new": comb(self.b)}
         if self.bh is not None:
             out["x_est"] = x + tau * sum(self.bh[i] * ks[i] for i in range(s))
-        out["kscale"] = float(max(np.max(np.abs(k)) for k in ks)) if ks else 0.0
+            out["bound_rounding"]["x_est"] = comb(self.bh)
         return out
